@@ -614,8 +614,8 @@ Section NoFuel.
     Proof.
       intros Hr. unfold custom_handler.
       assert (H : NFb SI R2 b (
-                   t0 <- get_ts ;;
                    c <- cleanup LF crun ;;
+                   t0 <- get_ts ;;
                    match c, r with
                    | Some e, Err (XInvalid m) => _ <- (if internal_msg m then mark_dirty else ret tt) ;; throw e
                    | Some e, _ => throw e
@@ -623,8 +623,8 @@ Section NoFuel.
                    | None, Err (XInvalid m) => match failed t0 with Some _ => throw (XInvalid m) | None => ret None end
                    | None, Err e => throw e
                    end)).
-      { ap NF_bind; [nf|intros t0].
-        apply (NF_bind_val _ _ _ _ _ _ _ (fun c => c <> Some XFuel)); [apply NF_cleanup|intros s c; apply cleanup_okl|intros c Hc].
+      { apply (NF_bind_val _ _ _ _ _ _ _ (fun c => c <> Some XFuel)); [apply NF_cleanup|intros s c; apply cleanup_okl|intros c Hc].
+        ap NF_bind; [nf|intros t0].
         assert (Hth : forall e, c = Some e -> NFb SI R2 b (@throw (option val) e)).
         { intros e ->. ap NF_throw. intros _ ->. apply Hc. reflexivity. }
         assert (Hr' : forall e, r = Err e -> NFb SI R2 b (@throw (option val) e)).
